@@ -232,7 +232,13 @@ def contract(rng, deep):
                     s2, _ = catalog.build(path, c, rng) if False else (s, None)
                     sol2 = s2(conv(pts), t)
                     count('container')
-                    if list(sol2.dtype.names) != names or any(not _close(sol[nm], sol2[nm]) for nm in names):
+                    differ = [nm for nm in names if not _close(sol[nm], sol2[nm])] if list(sol2.dtype.names) == names else names
+                    if differ and path.endswith(':SteadyDetonationReactionZone') and t > 1.0:
+                        # sdrz.py reads xvec_rel[it1] from an np.empty array for t > 1 (the recorded C02 defect): uninitialised
+                        # memory, so two identical requests differ — a false "container" alarm on replay taught us this
+                        fail(path, 'position_relative-uninitialised', 'position_relative differs between two requests for the same points '
+                                                                      'at t = %r > 1' % t, case)
+                    elif differ:
                         fail(path, 'container-' + kind, 'result differs from the ndarray call', case)
                 except Exception as ex:
                     fail(path, 'container-' + kind, '%s input raised %s: %s' % (kind, type(ex).__name__, str(ex)[:100]), case)
@@ -253,6 +259,8 @@ def contract(rng, deep):
                         a, b = np.asarray(sol[nm])[perm], np.asarray(sol3[nm])
                         if a.dtype.kind not in 'fc':
                             continue
+                        if nm0 == 'SteadyDetonationReactionZone' and t > 1.0:
+                            continue          # uninitialised memory (see the container comparison)
                         if nm0 in GRID_TOL or 'Sedov' in nm0:
                             okv = np.all(np.isclose(a, b, rtol=0.05, atol=1e-12 + 0.05 * float(np.nanmax(np.abs(a)) if a.size else 0), equal_nan=True))
                         else:
